@@ -251,6 +251,14 @@ func runC07(c *Ctx) {
 
 	c.errPropagates("R07.10", p.Method(pkgCtrlState, "StateAdapter", "AddFinalizer"), 1, "(*pkg/state/owned.State).AddFinalizer")
 
+
+	// ---------- error discipline (E8)
+	errDisciplineFor(c, "C07")
+
+	// ---------- R07.12 (shared with C15 R15.10)
+	c.Rule("R07.12", "E5", "finalizer and teardown decisions are taken on the live state: a NotFound or a finalizer set read from the lagging cache would release an input finalizer while the output still exists", 10)
+	liveStateRules(c, "R07.12")
+
 }
 
 // storeDestroyGuard: in ResourceCollection.Destroy, delete(storage) / backing-store Destroy /
